@@ -1,6 +1,7 @@
 import CloakModel.Model.Sender
 import CloakModel.Lemmas.SenderCore
 import CloakModel.Lemmas.SenderOrder
+import CloakModel.Lemmas.SenderClose
 
 /-! # C13 — Each stream's frames carry unique, gap-free sequence numbers in write order
 
@@ -20,7 +21,7 @@ open SN
 
 /-- the three call chains into `obfuscateAndSend` are under `writingM`, and `Seq++` directly follows
 the encode (before the error return and before the send) -/
-theorem gen_shape : SN.genShape = ⟨true, true, true, true⟩ := by decide
+theorem gen_shape : SN.genShape = ⟨true, true, true, true, true⟩ := by decide
 
 /-- the remaining structural facts: only the three modelled functions reach `obfuscateAndSend`;
 `closeStream` sends only when active and its only non-passive call site is `Stream.Close`;
@@ -56,7 +57,7 @@ theorem frames_adv (fs : List (Nat × Res)) :
     exact ih
 
 theorem chunks_adv (cs : List (Nat × Res)) :
-    advs idle (cs.flatMap (fun x => Instr.chk :: sect true (frameI true false x.1 x.2))) = some idle := by
+    advs idle (cs.flatMap (fun x => sect true (Instr.chk :: frameI true false x.1 x.2))) = some idle := by
   induction cs with
   | nil => simp [advs]
   | cons x xs ih =>
@@ -384,13 +385,107 @@ theorem c13_nonce_unique (logs : List (List Frame))
     simp only [Prod.mk.injEq] at h
     omega
 
+
+/-! ### the closing notice is the last frame of the stream
+
+(C13: "a close puts a closing frame on the wire numbered after every frame of the writes that completed before it";
+C03: "once a side has closed the stream … its writes fail".)  Needs `Gen.Sender.readFromChkUnderLock`: every
+critical section that can number a frame starts with the closed-test. -/
+
+theorem body_ok (fs : List (Nat × Res)) (q : List Instr) :
+    gOK (fs.flatMap (fun x => frameI true false x.1 x.2) ++ q) = gOK q ∧
+    casTailOK (fs.flatMap (fun x => frameI true false x.1 x.2) ++ q) = casTailOK q ∧
+    casGuardOK (fs.flatMap (fun x => frameI true false x.1 x.2) ++ q) = casGuardOK q := by
+  induction fs with
+  | nil => simp
+  | cons x xs ih => simpa [frameI, gOK, casTailOK, casGuardOK] using ih
+
+theorem chunks_ok (cs : List (Nat × Res)) :
+    gOK (cs.flatMap (fun x => sect true (Instr.chk :: frameI true false x.1 x.2))) = true ∧
+    casTailOK (cs.flatMap (fun x => sect true (Instr.chk :: frameI true false x.1 x.2))) = true ∧
+    casGuardOK (cs.flatMap (fun x => sect true (Instr.chk :: frameI true false x.1 x.2))) = true := by
+  induction cs with
+  | nil => simp [gOK, casTailOK, casGuardOK]
+  | cons x xs ih => simpa [sect, frameI, gOK, casTailOK, casGuardOK] using ih
+
+/-- **the tie**: with the extracted shape (closed-test inside every sending section) every call's program has the
+three structural properties the invariant `CI` needs -/
+theorem call_guarded (c : Call) : gOK c.prog = true ∧ casTailOK c.prog = true ∧ casGuardOK c.prog = true := by
+  unfold Call.prog
+  rw [gen_shape]
+  cases c with
+  | write fs =>
+    have h := body_ok fs [Instr.unlock]
+    simp only [Call.progW, sect, if_true, List.cons_append]
+    simp [gOK, casTailOK, casGuardOK, h.1, h.2.1, h.2.2]
+  | readFrom cs =>
+    simp only [Call.progW, if_true]
+    exact chunks_ok cs
+  | close pl r => simp [Call.progW, sect, frameI, gOK, casTailOK, casGuardOK]
+
+theorem calls_ci (calls : List Call) : CI (init (calls.map Call.prog)) := by
+  apply init_ci
+  intro p hp
+  simp only [List.mem_map] at hp
+  obtain ⟨c, _, rfl⟩ := hp
+  exact call_guarded c
+
+/-- **C13/C03 (the closing notice is last).** Any number of concurrent `Write`, `ReadFrom` and `Close` calls on one
+stream, any outcome of every send, any schedule: a frame that carries the closing flag is the LAST frame the stream
+ever numbers, and the last one it hands to a connection — nothing follows the closing notice on the wire, so a chunk
+a `ReadFrom` had taken before the close is either numbered before the notice or refused.  (False for the tree before
+/repo 6ee9036: `c13_chk_outside_witness`.) -/
+theorem c13_close_last (calls : List Call) (sched : List Nat) :
+    let s := runSched (init (calls.map Call.prog)) sched
+    (∀ (pre : List Frame) (f : Frame) (post : List Frame), s.enc = pre ++ f :: post → f.closing = true → post = []) ∧
+    (∀ (pre : List Frame) (f : Frame) (post : List Frame), s.wire = pre ++ f :: post → f.closing = true → post = []) := by
+  intro s
+  have hi := run_inv sched _ (calls_inv calls)
+  have hc := run_ci sched _ (calls_inv calls) (calls_ci calls)
+  exact ⟨hc.last, last_of_sublist hi.wire hc.last⟩
+
+/-- consequence: at most one frame carries the closing flag — data frames never do -/
+theorem c13_one_closing (calls : List Call) (sched : List Nat) :
+    let s := runSched (init (calls.map Call.prog)) sched
+    (s.enc.filter (·.closing)).length ≤ 1 := by
+  intro s
+  have h := (c13_close_last calls sched).1
+  have : ∀ l : List Frame, (∀ (pre : List Frame) (f : Frame) (post : List Frame), l = pre ++ f :: post → f.closing = true → post = []) →
+      (l.filter (·.closing)).length ≤ 1 := by
+    intro l
+    induction l with
+    | nil => intro _; simp
+    | cons x xs ih =>
+      intro hl
+      by_cases hx : x.closing = true
+      · have := hl [] x xs rfl hx
+        subst this; simp [hx]
+      · have hx' : x.closing = false := by simpa using hx
+        simp only [List.filter_cons, hx']
+        apply ih
+        intro pre f post he hf
+        exact hl (x :: pre) f post (by rw [he]; rfl) hf
+  exact this _ h
+
 /-! ### non-vacuity and the mutant's witness -/
 
-/-- a two-frame `Write`, a `Close` and a `ReadFrom` racing on one stream: the model really consumes
-0,1,2,3 and the closing frame gets number 2 in this schedule -/
+/-- a two-frame `Write`, a `Close` and a `ReadFrom` on one stream: the model really consumes 0,1,2, the closing
+frame gets number 2, and the `ReadFrom` that arrives afterwards is refused (its closed-test is in its section) -/
 example :
     let calls := [Call.write [(10, .ok), (11, .ok)], Call.close 99 .ok, Call.readFrom [(12, .ok)]]
-    let s := runSched (init (calls.map Call.prog)) [2, 0, 0, 0, 0, 0, 1, 0, 0, 0, 0, 1, 1, 1, 1, 1, 1, 2, 2, 2, 2, 2]
+    let s := runSched (init (calls.map Call.prog)) [0, 0, 0, 0, 0, 0, 0, 0, 0, 1, 1, 1, 1, 1, 1, 2, 2, 2]
+    s.enc.map (fun f => (f.seq, f.closing, f.pl)) = [(0, false, 10), (1, false, 11), (2, true, 99)] ∧
+    s.closed = true ∧ s.lock = none := by decide
+
+/-- **the pinned witness of the defect repaired by /repo 6ee9036** (`Gen.Sender.readFromChkUnderLock = false`
+there): with `ReadFrom`'s closed-test OUTSIDE its critical section, a `ReadFrom` that passed the test while a
+`Write` held the mutex is numbered AFTER the closing frame and even carries the closing flag — frame
+`(3, closing, 12)` follows `(2, closing, 99)`; the peer drops it.  The harness replays this schedule on the real
+code (`c03race.go`). -/
+theorem c13_chk_outside_witness :
+    let sh : Shape := ⟨true, true, true, true, false⟩
+    let calls := [Call.write [(10, .ok), (11, .ok)], Call.close 99 .ok, Call.readFrom [(12, .ok)]]
+    let s := runSched (init (calls.map (Call.progW sh))) [2, 0, 0, 0, 0, 0, 1, 0, 0, 0, 0, 1, 1, 1, 1, 1, 1, 2, 2, 2, 2, 2]
     s.enc.map (fun f => (f.seq, f.closing, f.pl)) = [(0, false, 10), (1, false, 11), (2, true, 99), (3, true, 12)] ∧
     s.closed = true := by decide
 
@@ -404,7 +499,7 @@ example :
 `lockReadFrom = false`), a `ReadFrom` chunk and a `Write` can both read `Seq = 0`: two different
 frames with the same number reach the wire.  The harness replays this race on the wire tap. -/
 theorem c13_unlocked_witness :
-    let sh : Shape := ⟨true, false, true, true⟩
+    let sh : Shape := ⟨true, false, true, true, false⟩
     let progs := [Call.progW sh (.readFrom [(7, .ok)]), Call.progW sh (.write [(8, .ok)])]
     let s := runSched (init progs) [0, 1, 1, 0, 1, 0, 1, 0, 1, 1]
     s.wire.map (fun f => (f.seq, f.pl)) = [(0, 7), (0, 8)] := by decide
@@ -416,3 +511,6 @@ end C13
 #print axioms C13.c13_call_order
 #print axioms C13.c13_nonce_unique
 #print axioms C13.c13_unlocked_witness
+#print axioms C13.c13_close_last
+#print axioms C13.c13_one_closing
+#print axioms C13.c13_chk_outside_witness
